@@ -1750,12 +1750,15 @@ func (g *Gen) stickySteps(v View) []step {
 				return Action{Op: "link", Node: g.sticky.leader, Node2: m, Mode: "prompt"}, true
 			}
 			x := g.pick("bad", g.sticky.bad)
-			switch rapid.SampledFrom([]string{"isolate", "isolate", "isolate", "reconnect", "reconnect", "advance", "advance", "advance", "crash", "stop", "restart", "restart", "release", "hiccup"}).Draw(g.T, "sticky") {
+			switch rapid.SampledFrom([]string{"isolate", "isolate", "isolate", "reconnect", "reconnect", "advance", "advance", "advance", "crash", "stop", "restart", "restart", "release", "hiccup", "hiccup", "hiccup", "deafen"}).Draw(g.T, "sticky") {
+			case "deafen":
+				// x no longer hears anybody but is heard: from an election timeout later on it keeps asking for votes
+				return Action{Op: "isolate", Node: x, Mode: "drop", Dir: "in"}, true
 			case "hiccup":
 				if len(g.sticky.good) > 0 {
 					m := g.pick("hiccupAt", g.sticky.good)
 					g.sticky.hiccupNode = m
-					d := g.dur("hiccup", et/4, et/3, et/2-2*hb)
+					d := g.dur("hiccup", et/4, et/3, et/2, et-3*hb-int64(g.C.H.MaxDelayUs))
 					if d < hb {
 						d = hb
 					}
